@@ -126,6 +126,9 @@ def main():
     cache = FnCache()
     from harness.lie import prelude as _prelude
     _prelude(run, report=())
+    from harness import history as _history      # engine H: call histories in fresh interpreters (spec/LieHistory.tla)
+    if _history.hook(run, tier, {"exp"}):
+        return run.finish()
     if "--replay" in sys.argv:
         d = json.load(open(sys.argv[sys.argv.index("--replay") + 1]))
         replay(run, cache, d["data"]["tv"])
